@@ -15,6 +15,9 @@ struct C10Field {
     name: String,
     ty: &'static str,
     attrs: Vec<KV>,
+    /// attributes that exist in `ts` spelling only (`as`, `inline`, `type`): written the same way
+    /// on both sides of every relation
+    ts_only: Vec<&'static str>,
 }
 
 #[derive(Clone, Debug)]
@@ -23,6 +26,7 @@ struct C10Variant {
     /// 0 unit, 1 newtype, 2 struct
     shape: u8,
     attrs: Vec<KV>,
+    ts_only: Vec<&'static str>,
     fields: Vec<C10Field>,
 }
 
@@ -119,17 +123,37 @@ fn c10_fields(words: &[u32], n: usize) -> Vec<C10Field> {
         .map(|i| {
             let w = |k: usize| words.get(i * 6 + k).copied().unwrap_or(0);
             let mut attrs = vec![];
-            match w(0) % 6 {
+            match w(0) % 8 {
                 0 => attrs.push(c10_kv("rename", w(1))),
                 1 => attrs.push(c10_kv("skip", 0)),
                 2 => attrs.push(c10_kv("flatten", 0)),
+                // two keys on one field: a field that is skipped *and* flattened / renamed
+                6 => {
+                    attrs.push(c10_kv("skip", 0));
+                    attrs.push(c10_kv("flatten", 0));
+                }
+                7 => {
+                    attrs.push(c10_kv("rename", w(1)));
+                    attrs.push(c10_kv("skip", 0));
+                }
                 _ => (),
             }
             let mut name = names[w(2) as usize % names.len()].to_string();
             if i > 0 {
                 name = format!("{}_{i}", name.trim_start_matches("r#"));
             }
-            C10Field { name, ty: tys[w(3) as usize % tys.len()], attrs }
+            let ty = tys[w(3) as usize % tys.len()];
+            let mut ts_only = vec![];
+            if !attrs.iter().any(|a| a.key == "flatten") {
+                match w(4) % 10 {
+                    0 => ts_only.push("as = \"Inner\""),
+                    1 if ty.contains("Inner") => ts_only.push("inline"),
+                    2 => ts_only.push("type = \"string | null\""),
+                    3 => ts_only.extend(["as = \"Vec<Inner>\"", "inline"]),
+                    _ => (),
+                }
+            }
+            C10Field { name, ty, attrs, ts_only }
         })
         .collect()
 }
@@ -187,7 +211,16 @@ fn c10_item(words: &[u32]) -> C10Item {
             }
             _ => c10_fields(&vw[6.min(vw.len())..], 1 + (g(3) % 2) as usize),
         };
-        variants.push(C10Variant { name: vnames[v], shape, attrs: vattrs, fields });
+        // a type for the whole variant (`as` is a ts-only key)
+        let mut ts_only = vec![];
+        if !vattrs.iter().any(|a| a.key == "rename_all") {
+            match g(4) % 8 {
+                0 => ts_only.push("as = \"Inner\""),
+                1 => ts_only.push("as = \"Option<Inner>\""),
+                _ => (),
+            }
+        }
+        variants.push(C10Variant { name: vnames[v], shape, attrs: vattrs, ts_only, fields });
     }
     C10Item { is_enum, attrs, fields: vec![], variants }
 }
@@ -203,7 +236,10 @@ struct Renderer<'a> {
 }
 
 impl Renderer<'_> {
-    fn attrs(&mut self, attrs: &[KV]) {
+    fn attrs(&mut self, attrs: &[KV], ts_only: &[&'static str]) {
+        if !ts_only.is_empty() {
+            self.out.push_str(&format!("#[ts({})] ", ts_only.join(", ")));
+        }
         let pos = self.pos;
         self.pos += 1;
         let junk = match self.mode.junk {
@@ -275,7 +311,7 @@ impl Renderer<'_> {
     }
     fn fields(&mut self, fs: &[C10Field], named: bool) {
         for f in fs {
-            self.attrs(&f.attrs);
+            self.attrs(&f.attrs, &f.ts_only);
             if named {
                 self.out.push_str(&format!("{}: {}, ", f.name, f.ty));
             } else {
@@ -288,11 +324,11 @@ impl Renderer<'_> {
 /// returns (source, number of keys whose spelling moved, junk adjacent to a supported key, positions)
 fn c10_render(item: &C10Item, mode: &Mode) -> (String, usize, bool, usize) {
     let mut r = Renderer { mode, pos: 0, out: String::new(), moved: 0, junk_next_to_supported: false, keys: 0, mixed_kinds: [0; 4] };
-    r.attrs(&item.attrs);
+    r.attrs(&item.attrs, &[]);
     if item.is_enum {
         r.out.push_str("enum Zq9<T> { ");
         for v in &item.variants {
-            r.attrs(&v.attrs);
+            r.attrs(&v.attrs, &v.ts_only);
             r.out.push_str(v.name);
             match v.shape {
                 0 => (),
@@ -391,7 +427,7 @@ fn c10_relation(name: &str, left: &str, right: &str, sig: &str) -> Option<Value>
     }
 }
 
-fn c10_eval(words: &[u32], exclude: &[String], stats: Option<&mut Report>) -> Option<Value> {
+fn c10_eval(words: &[u32], exclude: &[String], mut stats: Option<&mut Report>) -> Option<Value> {
     let item = c10_item(words);
     let serde_on = serde_requested();
     let w = |k: usize| words.get(200 + k).copied().unwrap_or(0);
@@ -476,6 +512,36 @@ fn c10_eval(words: &[u32], exclude: &[String], stats: Option<&mut Report>) -> Op
             let (with_with, _, _, _) = c10_render(&item, &mode);
             relations += 1;
             result = result.or_else(|| c10_relation("#[serde(skip, with = \"m\")] == #[serde(skip)] on a field", &with_with, &src_serde, "serde-with-on-skipped-field-rejected"));
+        }
+    }
+    // a skipped named field has no binding: the item expands as if the field were not there
+    // (whatever else the field carries: `flatten`, `rename`, `as`, `inline`, `type`)
+    if serde_on {
+        let mut erased = item.clone();
+        let mut removed = 0;
+        // (`keep_one`: a struct variant stays a variant with fields - `V {}` is written
+        // differently from `V { #[ts(skip)] a: A }`, both meaning the empty object)
+        let mut strip = |fs: &mut Vec<C10Field>, keep_one: bool| {
+            let skipped = |f: &C10Field| f.attrs.iter().any(|a| a.key == "skip");
+            if keep_one && fs.iter().all(skipped) {
+                return;
+            }
+            let before = fs.len();
+            fs.retain(|f| !skipped(f));
+            removed += before - fs.len();
+        };
+        strip(&mut erased.fields, false);
+        for v in erased.variants.iter_mut().filter(|v| v.shape == 2) {
+            strip(&mut v.fields, true);
+        }
+        if removed > 0 {
+            let (src_erased, _, _, _) = c10_render(&erased, &plain(Spelling::Serde));
+            relations += 1;
+            nontrivial = true;
+            result = result.or_else(|| c10_relation("a skipped named field == no field", &src_serde, &src_erased, "skipped-field-leaves-a-trace"));
+            if let Some(stats) = stats.as_deref_mut() {
+                stats.label("skipped_field_erased");
+            }
         }
     }
     if !serde_on {
